@@ -2356,6 +2356,78 @@ def opt_norm(fn, e, depth=0):
     return ('opt', untry(e))
 
 
+def _closure_body(P, c, params):
+    """the value a closure / function reference returns, in the creator's terms (single exit only)"""
+    if not (isinstance(c, tuple) and c and c[0] in ('closure', 'fnref') and c[1] in P.fns):
+        return None
+    cf = P.fns[c[1]]
+    ex = cf.exits()
+    if len(ex) != 1 or cf.loops():
+        return None
+    body = expand(cf, ex[0]['expr'])
+    if c[0] == 'closure':
+        return subst_closure(cf, body, params, c[2])
+    return subst_args(body, params)
+
+
+def opt_sem(fn, e, depth=0):
+    """an Option-valued expression as (conditions, payload): it is Some(payload) exactly when every condition holds and None
+    otherwise — one reading for combinator chains (filter / and_then / map / bool::then / then_some / checked_sub) and for the
+    explicit tests they abbreviate.  An expression that is not such a chain is ([is_some(e)], unwrap_Some(e))."""
+    P = fn.prog
+    e = strip(e)
+    atom = ([('is_some', e)], ('payload', e, 'Some', 0))
+    if depth > 6 or not isinstance(e, tuple) or not e:
+        return atom
+    if e[0] == 'agg' and e[1].endswith('Option::Some') and e[2]:
+        return ([], e[2][0][1])
+    if e[0] != 'call':
+        return atom
+    path, args = e[1], e[2]
+    if re.search(r'num::<impl [ui](8|16|32|64|128|size)>::checked_sub$', path) and len(args) == 2:
+        return ([('bin', 'Ge', args[0], args[1])], ('bin', 'Sub', args[0], args[1]))
+    if re.search(r'Option::<T>::filter$', path) and len(args) == 2:
+        cx, vx = opt_sem(fn, args[0], depth + 1)
+        b = _closure_body(P, args[1], [vx])
+        if b is None:
+            return atom
+        return (cx + [b], vx)
+    if re.search(r'Option::<T>::and_then$', path) and len(args) == 2:
+        cx, vx = opt_sem(fn, args[0], depth + 1)
+        b = _closure_body(P, args[1], [vx])
+        if b is None:
+            return atom
+        cb, vb = opt_sem(fn, b, depth + 1)
+        return (cx + cb, vb)
+    if re.search(r'Option::<T>::map$', path) and len(args) == 2:
+        cx, vx = opt_sem(fn, args[0], depth + 1)
+        b = _closure_body(P, args[1], [vx])
+        if b is None:
+            return atom
+        return (cx, b)
+    if re.search(r'bool>?::then$', path) and len(args) == 2:
+        b = _closure_body(P, args[1], [])
+        if b is None:
+            return atom
+        return ([args[0]], b)
+    if re.search(r'bool>?::then_some$', path) and len(args) == 2:
+        return ([args[0]], args[1])
+    return atom
+
+
+def conj_simplify(conds):
+    """a ≥ b ∧ a − b ≠ 0 is a > b (the two halves of `checked_sub(..).filter(|d| d != 0)`)"""
+    out = list(conds)
+    for c in list(out):
+        c0 = strip(c)
+        if c0[0] == 'bin' and c0[1] in ('Ne', 'Gt') and strip(c0[3])[:2] == ('int', 0) and strip(c0[2])[0] == 'bin' and strip(c0[2])[1] == 'Sub':
+            a, b = strip(c0[2])[2], strip(c0[2])[3]
+            ge = [g for g in out if strip(g)[0] == 'bin' and strip(g)[1] == 'Ge' and strip(g)[2] == a and strip(g)[3] == b]
+            if ge:
+                out = [x for x in out if x is not c and x is not ge[0]] + [('bin', 'Gt', a, b)]
+    return out
+
+
 def untry(e):
     """payload-of-try-branch spellings unified: unwrap_Some(try X) / try(X) / unwrap_Continue(branch(X)) -> ('try', X)"""
     def one(x):
